@@ -24,19 +24,19 @@ package openapi3filter
 //@   modifies *
 //@   modifies wlocked, rlocked
 //@   ensures unchanged(wlocked, rlocked)
-//@   option safety-tags C10
+//@   option safety-tags none
 //@   tag C15
 //@ func UnregisterBodyEncoder
 //@   requires !wlocked[ptr(bodyEncodersM)] && rlocked[ptr(bodyEncodersM)] == 0
 //@   modifies *
 //@   modifies wlocked, rlocked
 //@   ensures unchanged(wlocked, rlocked)
-//@   option safety-tags C10
+//@   option safety-tags none
 //@   tag C15
 //@ func RegisteredBodyEncoder
 //@   requires !wlocked[ptr(bodyEncodersM)] && rlocked[ptr(bodyEncodersM)] == 0
 //@   modifies *
 //@   modifies wlocked, rlocked
 //@   ensures unchanged(wlocked, rlocked)
-//@   option safety-tags C10
+//@   option safety-tags none
 //@   tag C15
